@@ -18,6 +18,8 @@ func c14Same(a, b []uint64) string {
 	return "1"
 }
 
+var c14Tick int
+
 func init() {
 	// [words, unchanged]: unchanged = 1 iff the input slice is as before the call
 	Exec["bitmap.Join"] = func(a []V) string {
@@ -39,7 +41,39 @@ func init() {
 	Exec["bitmap.Slice"] = func(a []V) string {
 		ws := a[0].U64s()
 		before := append([]uint64{}, ws...)
-		r := bitmap.Slice(ws, a[1].I32(), a[2].I32())
+		from, to := a[1].I32(), a[2].I32()
+		r := bitmap.Slice(ws, from, to)
+		c14Tick++
+		if c14Tick%8 == 0 && len(ws) > 0 {
+			// one case in 8: the same range is then sliced by three callers at once out of the SAME bitmap,
+			// next to three callers slicing other ranges of it (ends sweeping the whole bitmap); readers
+			// share a bitmap freely, so the first result that differs from the lone caller's is the observation
+			n := int32(64 * len(ws))
+			var bad [3][]uint64
+			lockstep(6, 120, func(g, j int) {
+				if g < 3 {
+					if r2 := bitmap.Slice(ws, from, to); bad[g] == nil && c14Same(r, r2) != c14Same(r, r) {
+						bad[g] = r2
+					}
+				} else {
+					func() {
+						defer func() { recover() }()
+						t2 := int32((j*3+g-3)*29)%n + 1
+						f2 := int32(0)
+						if g == 5 {
+							f2 = t2 - 1
+						}
+						bitmap.Slice(ws, f2, t2)
+					}()
+				}
+			})
+			for _, b := range bad {
+				if b != nil {
+					r = b
+					break
+				}
+			}
+		}
 		return L(U64s(r), c14Same(before, ws))
 	}
 	Register("C14", genC14)
